@@ -153,6 +153,46 @@ func (m *RWMutex) RUnlock() {
 	m.readers--
 }
 
+// TryLock mirrors (*sync.RWMutex).TryLock.
+func (m *RWMutex) TryLock() bool {
+	if !vsched.Active() {
+		return m.mu.TryLock()
+	}
+	if vsched.Teardown() {
+		return false
+	}
+	vsched.Yield(&vsched.Op{Kind: "trylock", Obj: m, Label: "rwmutex", Enabled: func() bool { return true }})
+	if vsched.Aborting() {
+		return false
+	}
+	m.fresh()
+	if m.writer || m.readers > 0 {
+		return false
+	}
+	m.writer = true
+	return true
+}
+
+// TryRLock mirrors (*sync.RWMutex).TryRLock.
+func (m *RWMutex) TryRLock() bool {
+	if !vsched.Active() {
+		return m.mu.TryRLock()
+	}
+	if vsched.Teardown() {
+		return false
+	}
+	vsched.Yield(&vsched.Op{Kind: "tryrlock", Obj: m, Label: "rwmutex", Enabled: func() bool { return true }})
+	if vsched.Aborting() {
+		return false
+	}
+	m.fresh()
+	if m.writer {
+		return false
+	}
+	m.readers++
+	return true
+}
+
 // RLocker mirrors (*sync.RWMutex).RLocker.
 func (m *RWMutex) RLocker() Locker { return (*rlocker)(m) }
 
